@@ -16,6 +16,11 @@ const (
 	// maxQueryLength is the maximum length of a query string that will be
 	// accepted. This is just a safety check to avoid outlandish queries.
 	maxQueryLength = 512
+
+	// subscriptionWriteTimeout bounds every write of the subscription
+	// forwarder (events and the cancellation notice) to the websocket
+	// connection's write queue.
+	subscriptionWriteTimeout = 10 * time.Second
 )
 
 // Subscribe for events via WebSocket.
@@ -50,6 +55,34 @@ func Subscribe(ctx *rpctypes.Context, query string) (*ctypes.ResultSubscribe, er
 
 	// Capture the current ID, since it can change in the future.
 	subscriptionID := ctx.JSONReq.ID
+
+	// closeConn stops the websocket connection (if it can be stopped): a
+	// client that cannot be told anything any more learns from the disconnect
+	// that its subscriptions are gone.
+	closeConn := func() {
+		if c, ok := ctx.WSConn.(interface{ Stop() error }); ok {
+			_ = c.Stop()
+		}
+	}
+	// tellCancelled sends the cancellation notice. The client must not be left
+	// with an open connection and a subscription that silently ended, so the
+	// write blocks (bounded) for a place in the write queue - which is full
+	// exactly when the client is slow - and the connection is closed if even
+	// that fails.
+	tellCancelled := func(reason string) {
+		var (
+			err  = fmt.Errorf("subscription was cancelled (reason: %s)", reason)
+			resp = rpctypes.RPCServerError(subscriptionID, err)
+		)
+		writeCtx, cancel := context.WithTimeout(context.Background(), subscriptionWriteTimeout)
+		defer cancel()
+		if werr := ctx.WSConn.WriteRPCResponse(writeCtx, resp); werr != nil {
+			env.Logger.Info("Can't write response (slow client), closing the connection",
+				"to", addr, "subscriptionID", subscriptionID, "err", werr)
+			closeConn()
+		}
+	}
+
 	go func() {
 		for {
 			select {
@@ -58,23 +91,25 @@ func Subscribe(ctx *rpctypes.Context, query string) (*ctypes.ResultSubscribe, er
 					resultEvent = &ctypes.ResultEvent{Query: query, Data: msg.Data(), Events: msg.Events()}
 					resp        = rpctypes.NewRPCSuccessResponse(subscriptionID, resultEvent)
 				)
-				writeCtx, cancel := context.WithTimeout(context.Background(), 10*time.Second)
-				defer cancel()
-				if err := ctx.WSConn.WriteRPCResponse(writeCtx, resp); err != nil {
+				writeCtx, cancel := context.WithTimeout(context.Background(), subscriptionWriteTimeout)
+				err := ctx.WSConn.WriteRPCResponse(writeCtx, resp)
+				cancel()
+				if err != nil {
 					env.Logger.Info("Can't write response (slow client)",
 						"to", addr, "subscriptionID", subscriptionID, "err", err)
 
+					// The event is lost: the stream must not go on with a gap.
+					// End the subscription and tell the client, or close the
+					// connection right away if so configured.
+					unsubCtx, cancel := context.WithTimeout(context.Background(), SubscribeTimeout)
+					_ = env.EventBus.Unsubscribe(unsubCtx, addr, q)
+					cancel()
 					if closeIfSlow {
-						var (
-							err  = errors.New("subscription was cancelled (reason: slow client)")
-							resp = rpctypes.RPCServerError(subscriptionID, err)
-						)
-						if !ctx.WSConn.TryWriteRPCResponse(resp) {
-							env.Logger.Info("Can't write response (slow client)",
-								"to", addr, "subscriptionID", subscriptionID, "err", err)
-						}
-						return
+						closeConn()
+					} else {
+						tellCancelled("slow client")
 					}
+					return
 				}
 			case <-sub.Cancelled():
 				if sub.Err() != tmpubsub.ErrUnsubscribed {
@@ -84,14 +119,7 @@ func Subscribe(ctx *rpctypes.Context, query string) (*ctypes.ResultSubscribe, er
 					} else {
 						reason = sub.Err().Error()
 					}
-					var (
-						err  = fmt.Errorf("subscription was cancelled (reason: %s)", reason)
-						resp = rpctypes.RPCServerError(subscriptionID, err)
-					)
-					if !ctx.WSConn.TryWriteRPCResponse(resp) {
-						env.Logger.Info("Can't write response (slow client)",
-							"to", addr, "subscriptionID", subscriptionID, "err", err)
-					}
+					tellCancelled(reason)
 				}
 				return
 			}
